@@ -255,8 +255,10 @@ func (n *LNode) Step(e Event, raw *interfaces.ConsensusRawMessage, info ref.Info
 	for _, rc := range n.BU.Reqs[preReqs:] {
 		n.Requested[rc.Tag] = true
 	}
-	if e.Kind == 't' && view > preView && height == sh.Height {
-		sh.TimedOutTo[view] = true
+	if e.Kind == 't' && preHeight == sh.Height && (view > preView && height == preHeight || height > preHeight) {
+		// the timeout of (preHeight, preView) was acted upon: the node entered preView+1 by its own vote. (A member that
+		// is a quorum by itself may be elected, decide and leave the height inside this very step.)
+		sh.TimedOutTo[preView+1] = true
 	}
 	bad := func(prop, clause, format string, a ...interface{}) {
 		obs.Viol = append(obs.Viol, Violation{Prop: prop, Clause: clause, Detail: fmt.Sprintf("n%d: ", n.Idx) + fmt.Sprintf(format, a...)})
